@@ -112,6 +112,24 @@ Theorem fo_conserve : forall src nic st rst ci,
 Proof. exact fo_conserve_lemma. Qed.
 Print Assumptions fo_conserve.
 
+(* ---- the conversion checker used by the correspondence in the relative mode ---- *)
+(* ValidConversion src prefs mult k (Proofs/FromOrdinal.v): prefs duplicate-free = key set of mult, all
+   ballots have k categories, and some assignment of a listed ballot to every source order partitions
+   that order into runs of whole classes, uses every listed ballot, and gives every ballot the summed
+   multiplicity of the orders assigned to it. *)
+Theorem conv_check_correct : forall src prefs mult k,
+  Forall (fun om => Forall (fun c => c <> []) (fst om)) src ->
+  (conv_check src prefs mult k = true <-> ValidConversion src prefs mult k).
+Proof. exact conv_check_correct_lemma. Qed.
+Print Assumptions conv_check_correct.
+
+Theorem fo_output_valid : forall src nic st rst ci,
+  from_ordinal src nic st rst = Ok ci ->
+  truthy nic || truthy st || truthy rst = true ->
+  ValidConversion (os_multiplicity src) (ci_preferences ci) (ci_multiplicity ci) (ci_num_categories ci).
+Proof. exact fo_output_valid_lemma. Qed.
+Print Assumptions fo_output_valid.
+
 (* ---- factorise_instance ---- *)
 Theorem factorise_correct : forall prefs mult prefs' mult',
   factorise_instance true prefs mult = (prefs', mult') ->
